@@ -120,3 +120,9 @@ Proof.
   - cbn. left. reflexivity.
   - cbn in Hm. destruct Hm as [<-|[]]. cbn in Hr. destruct Hr as [E|[]]. inversion E.
 Qed.
+
+(* the layouts of every loaded network satisfy the layout predicate of C01 *)
+From Acme.C12 Require Import LayoutC01.
+Theorem load_ok_layouts_c01_lemma : forall now p n,
+  pnet_u32_ok p -> load now p = Ok n -> net_c01_okb n = true.
+Proof. intros now p n Hu H. apply wfb_layouts_c01_lemma. eapply load_ok_wf_lemma; eauto. Qed.
